@@ -3,7 +3,7 @@ of layer key/value tables, who-may-write census for feature fields."""
 import json
 import os
 
-from . import ir
+from . import affine, ir
 
 SPEC = {
     # message -> field -> (wire, class)
@@ -338,3 +338,95 @@ def feature_write_rule(ck, P, rule="R-FEATURE-WRITE"):
         ck.check(not bad, rule, b["q"] + "|order", "retained features keep their relative order (into_iter/filter_map/map/collect only)", "feature order is changed by %s" % bad, ir.loc(b))
         wr = [n["l"]["name"] for n in ir.walk_nodes(b["body"]) if n.get("k") == "assign" and n["l"].get("k") == "field" and "VectorTileFeature" in (n["l"]["e"].get("t", "") + n["l"]["e"].get("ta", ""))]
         ck.check(wr == ["tag_ids"], rule, b["q"] + "|writes", "only tag_ids of a feature is rewritten", "feature fields written: %s" % wr, ir.loc(b))
+
+
+def vtlp_rules(ck, P, rule="R-TABLE-INDEX"):
+    """VTLPMap keeps `list` (index -> entry) and `map` (entry -> index) as inverse views: for every (v, i) in map, list[i] == v.
+    The tag ids written into features are map values, and decoders resolve them through list positions."""
+    A = affine
+    adts = [q for q in P.adts if q.endswith("vector_tile::property_manager::VTLPMap")]
+    if not ck.anchor(rule, "VTLPMap", adts, 1):
+        return
+    adt = adts[0]
+    meths = [b for b in P.bodies if b.get("self_adt") == adt and b["dk"] == "AssocFn"]
+    ck.anchor(rule, "VTLPMap methods", meths, 4)
+
+    def is_field(e, name):
+        e = ir.strip(e)
+        return e is not None and e.get("k") == "field" and e.get("name") == name and adt.rsplit("::", 1)[-1] in (ir.strip(e["e"]).get("t", "") + ir.strip(e["e"]).get("ta", ""))
+    # (a) only VTLPMap's own methods mutate the two views
+    outside = []
+    for b in P.bodies:
+        if b.get("self_adt") == adt or b.get("target") not in (None, "lib", "bin"):
+            continue
+        for n in ir.walk_nodes(b["body"]):
+            if n.get("k") == "mcall" and n["recv"].get("ta", "").startswith("&mut") and (is_field(n["recv"], "list") or is_field(n["recv"], "map")):
+                outside.append("%s (%s at %s)" % (b["q"], n["name"], ir.loc(n)))
+            if n.get("k") in ("assign", "assignop") and (is_field(n["l"], "list") or is_field(n["l"], "map")):
+                outside.append("%s (assignment at %s)" % (b["q"], ir.loc(n)))
+    ck.check(not outside, rule, "owner", "only VTLPMap's own methods mutate `list` and `map`", "`list`/`map` are mutated outside VTLPMap: %s" % outside[:3])
+    # (b) every method that grows the list records list position == map value
+    growers = 0
+    for b in meths:
+        order = {id(n): i for i, n in enumerate(_eval_order(b["body"]))}
+        pushes = [n for n in ir.walk_nodes(b["body"]) if n.get("k") == "mcall" and n.get("name") in ("push", "insert", "extend", "append", "remove", "pop", "clear", "truncate", "swap_remove", "retain", "sort", "sort_by", "dedup")
+                  and is_field(n["recv"], "list") and n["recv"].get("ta", "").startswith("&mut")]
+        inserts = [n for n in ir.walk_nodes(b["body"]) if n.get("k") == "mcall" and n.get("name") == "insert" and
+                   (is_field(n["recv"], "map") or "VacantEntry" in (n.get("q") or ""))]
+        other_map = [n for n in ir.walk_nodes(b["body"]) if n.get("k") == "mcall" and is_field(n["recv"], "map") and n["recv"].get("ta", "").startswith("&mut")
+                     and n.get("name") not in ("insert", "entry", "get", "get_mut")]
+        if not pushes and not inserts and not other_map:
+            continue
+        growers += 1
+        key = b["q"]
+        bad_ops = [n["name"] for n in pushes if n["name"] != "push"] + [n["name"] for n in other_map]
+        if not ck.check(not bad_ops and len(pushes) == 1 and len(inserts) == 1, rule, key + "|one-push-one-insert", "one list.push and one map insert per new entry",
+                        "list/map updates are not one push + one insert (%s pushes, %s inserts, other: %s)" % (len(pushes), len(inserts), bad_ops), ir.loc(b)):
+            continue
+        env = A.Env()
+        A.run(ir.stmts_of(ir.fn_block(b)), env)
+        val = inserts[0]["a"][-1]
+        V = A.ev(val, env)
+        lens = [n for n in ir.walk_nodes(b["body"]) if n.get("k") == "mcall" and n.get("name") == "len" and is_field(n["recv"], "list")]
+        ok = False
+        if len(lens) == 1:
+            L = A.ev(lens[0], A.Env())
+            before = order[id(lens[0])] < order[id(pushes[0])]
+            ok = A.eq(V, L) and before or A.eq(V, A.sub(L, A.const(1))) and not before
+        ck.check(ok, rule, key + "|index-is-position", "the index stored in `map` is the position the entry gets in `list` (list.len() taken before the push)",
+                 "the index stored in `map` is `%s`, not the entry's position in `list`: once map.len() != list.len() (tables read with repeated entries) new entries get the id of another entry" % A.show(V),
+                 ir.loc(inserts[0]))
+        # same entry on both sides
+        ps = [x for p in b["params"] for x in ir.pat_binds(p) if x["name"] != "self"]
+        ph = ps[0]["hid"] if ps else None
+
+        def roots(e):
+            return {ir.local_hid(y) for y in ir.walk_nodes(e) if y.get("k") == "path" and y.get("r") == "local"}
+        k_ok = True
+        if is_field(inserts[0]["recv"], "map"):
+            k_ok = ph in roots(inserts[0]["a"][0])
+        else:
+            ent = [n for n in ir.walk_nodes(b["body"]) if n.get("k") == "mcall" and n.get("name") == "entry" and is_field(n["recv"], "map")]
+            k_ok = len(ent) == 1 and ph in roots(ent[0]["a"][0])
+        pushed = pushes[0]["a"][0]
+        p_ok = ph in roots(pushed) or ir.contains(pushed, lambda y: y.get("k") == "mcall" and y.get("name") == "key")
+        ck.check(k_ok and p_ok, rule, key + "|same-entry", "the entry inserted into `map` is the entry pushed onto `list`", "map key and pushed entry are not the same value", ir.loc(b))
+    ck.anchor(rule, "methods that add entries", list(range(growers)), 1)
+    # (c) new(): map = { list[i] -> i }
+    nw = [b for b in meths if b["q"].endswith("::new")]
+    if ck.anchor(rule, "VTLPMap::new", nw, 1):
+        b = nw[0]
+        en = [n for n in ir.walk_nodes(b["body"]) if n.get("k") == "mcall" and n.get("name") == "enumerate"]
+        ok = False
+        if len(en) == 1:
+            mp = [n for n in ir.walk_nodes(b["body"]) if n.get("k") == "mcall" and n.get("name") == "map" and n["a"] and n["a"][0].get("k") == "closure" and ir.contains(n["recv"], lambda y: y is en[0])]
+            if len(mp) == 1:
+                clo = mp[0]["a"][0]
+                binds = [x for p in clo["params"] for x in ir.pat_binds(p)]
+                t = ir.unparen(clo["body"])
+                if len(binds) == 2 and t.get("k") == "tup" and len(t["es"]) == 2:
+                    ih, eh = binds[0]["hid"], binds[1]["hid"]
+                    ok = eh in {ir.local_hid(y) for y in ir.walk_nodes(t["es"][0])} and ir.local_hid(ir.strip(t["es"][1]) if ir.strip(t["es"][1]).get("k") != "cast" else ir.strip(t["es"][1])["e"]) == ih
+                    src = ir.strip(en[0]["recv"])
+                    ok = ok and src.get("k") == "mcall" and src.get("name") == "iter" and ir.place_str(src["recv"]) == "list"
+        ck.check(ok, rule, b["q"] + "|enumerate", "new() maps each list element to its own position (list.iter().enumerate())", "new() does not build map = {list[i] -> i}", ir.loc(b))
